@@ -239,8 +239,18 @@ func runLoop(c Case) []V {
 		return inc("unknown kind")
 	}
 	defer func() {
-		a.Close()
-		b.Close()
+		// both ends close at the same time: a WebSocket close handshake waits for the peer's close frame
+		cd := make(chan struct{}, 2)
+		go func() { a.Close(); cd <- struct{}{} }()
+		go func() { b.Close(); cd <- struct{}{} }()
+		t := time.NewTimer(3 * time.Second)
+		defer t.Stop()
+		for i := 0; i < 2; i++ {
+			select {
+			case <-cd:
+			case <-t.C:
+			}
+		}
 		release()
 	}()
 	if c.Kind != "loop-ws" {
@@ -262,6 +272,11 @@ func runLoop(c Case) []V {
 			return append(vs.list, inc("step %d message %s: Read did not return within the timeout", step, op.msg)...)
 		}
 		if err != nil {
+			if strings.Contains(err.Error(), "previous message not read to completion") {
+				// deterministic consequence of the reader contract breach that the in-memory Conn reports under the same signature
+				vs.add("conn-reader-not-drained:ws/"+c.Cfg.Mode, "loopback %s, step %d message %s of [%s]: Read: %v", where, step, op.msg, seqString(c.Seq), err)
+				return vs.list
+			}
 			return append(vs.list, inc("step %d message %s: Read: %v", step, op.msg, err)...)
 		}
 		select {
@@ -325,12 +340,21 @@ func loopGroups(thorough bool) []Group {
 	return gs
 }
 
+// loopGroupBudget bounds the wall time of one loopback group: these runs are a conformance extra and
+// must not endanger the time limit of the tier. Cases not reached are reported as inconclusive.
+const loopGroupBudget = 40 * time.Second
+
 func (g Group) eachLoop(yield func(Case) bool) {
 	letters := lettersFor(g.Cfg.Bits, allContents)
+	deadline := time.Now().Add(loopGroupBudget)
 	for n := 1; n <= g.Len; n++ {
 		ok := true
 		seqs(letters, n, nil, g.Same, func(s []Msg) bool {
-			ok = yield(Case{Kind: g.Fam, Cfg: g.Cfg, Seq: s, Backend: g.Backend})
+			c := Case{Kind: g.Fam, Cfg: g.Cfg, Seq: s, Backend: g.Backend}
+			if time.Now().After(deadline) {
+				c.Kind = "loop-skip"
+			}
+			ok = yield(c)
 			return ok
 		})
 		if !ok {
